@@ -235,7 +235,7 @@ std::string applyEdit(std::string doc, Src &src, Case &c)
         break;
     }
     case 11: { // many siblings
-        size_t n = 50 + src.below(4) * 1300; // up to ~4000
+        size_t n = 50 + src.below(4) * 250; // up to 800 (validation is quadratic in the number of siblings; larger counts only burn time)
         static const std::vector<std::string> what = {"<ci>", "<variable ", "<unit ", "<component ", "<map_variables "};
         std::string w = src.pick(what);
         auto occ = findAll(doc, w);
@@ -468,6 +468,20 @@ void run(Src &src, Case &c)
     c.hash = hashStr(doc, hashStr(cfg.extraDoc) ^ cfgBits);
     c.weight = doc.size();
     c.text = "cfg=" + std::to_string(cfgBits) + " version=" + std::to_string(xo.version) + "\n" + doc.substr(0, 5000) + (cfg.extraDoc.empty() ? "" : "\n--- library document ---\n" + cfg.extraDoc.substr(0, 2000));
+    if (getenv("VP_DUMP_CASE") != nullptr) { // triage aid: write the document(s) of this case to files
+        std::string p = getenv("VP_DUMP_CASE");
+        FILE *f = fopen(p.c_str(), "w");
+        if (f != nullptr) {
+            fwrite(doc.data(), 1, doc.size(), f);
+            fclose(f);
+        }
+        f = fopen((p + ".lib").c_str(), "w");
+        if (f != nullptr) {
+            fwrite(cfg.extraDoc.data(), 1, cfg.extraDoc.size(), f);
+            fclose(f);
+        }
+        fprintf(stderr, "cfg strict=%d selfLibrary=%d extraDoc=%zu bytes\n", cfg.strict ? 1 : 0, cfg.selfLibrary ? 1 : 0, cfg.extraDoc.size());
+    }
     runPipeline(doc, cfg, c);
 }
 
